@@ -14,5 +14,6 @@ PROP = dict(
     tags=["gt"],
     units=[
         U("field", ".", "^TestVerifC19_FieldClear$", 1200, 40000, sq=4, sth=10),
+        U("api", "./server", "^(TestVerifC19_API|TestVerifWitness_(D22|DT1)_API)$", 240, 3000, sq=4, sth=10),
     ],
 )
